@@ -63,7 +63,8 @@ def _run(names, extra, tier, tree):
                 t0 = time.time()
                 c = sh([os.path.join(V, "check"), p, "--tier", tier], cwd=V, env=dict(os.environ, VERIF_REPO=tree))
                 lines = [l for l in c.stdout.splitlines() if l.startswith(("VIOLATION", "KNOWN-FINDING"))]
-                res[p] = dict(exit=c.returncode, seconds=round(time.time() - t0, 1), lines=lines[:6])
+                viol = [l for l in lines if l.startswith("VIOLATION")]
+                res[p] = dict(exit=c.returncode, seconds=round(time.time() - t0, 1), lines=viol[:6] + [l for l in lines if not l.startswith("VIOLATION")][:3])
                 print(f"{name:28s} {p} exit={c.returncode} {'DETECTED' if c.returncode == 1 and lines else 'missed'} "
                       f"{'no-failing-input-found' if c.returncode == 1 and lines and all('no-failing-input-found' in l for l in lines if l.startswith('VIOLATION')) else ''} ({res[p]['seconds']} s)")
         finally:
